@@ -125,6 +125,11 @@ def c_dg_shadowing():
         raise Broken("descriptor_generator not found")
     if [a.arg for a in fn.args.args] != ["obj"]:
         raise Broken("descriptor_generator: parameters changed")
+    loops = [n for n in fn.body if isinstance(n, ast.For)]
+    if len(loops) != 1 or ast.unparse(loops[0].iter) != "type(obj).__mro__" \
+            or any(isinstance(n, (ast.Break, ast.Return)) for n in ast.walk(fn)):
+        raise Broken("descriptor_generator does not walk the WHOLE type(obj).__mro__ (sliced / filtered iterable, break or return in "
+                     "the walk): observables of classes further along the mro are not registered")
     got = pyexpr.normalized_statements(fn)
     if got == DG_REPAIRED:
         return "Definition gen_dg_shadowing : bool := true."
